@@ -223,9 +223,62 @@ fn reproduce(prober: &mut Prober, full: &Spec, differing: usize) -> Option<(Spec
     None
 }
 
+/// Last resort: the difference is real but no schedule the simulator controls pins it down (a
+/// source it does not own: thread scheduling introduced by a change, a raw system call, …).
+/// Launch the pair again and again in fresh processes; if it differs at least once more, the
+/// violation is reported with a replay that is marked as not deterministic and says how often it
+/// showed. Both tiers are tried.
+fn statistical(prober: &mut Prober, full: &Spec, differing: usize) -> Option<(Spec, Probe, usize, usize)> {
+    let mut pair = full.clone();
+    pair.plans = vec![full.plans[0].clone(), full.plans[differing.min(full.plans.len() - 1)].clone()];
+    let mut candidates = vec![pair.clone()];
+    if full.tier == Tier::InProc {
+        let mut exec = pair.clone();
+        exec.tier = Tier::Exec;
+        exec.launcher = "exec".to_owned();
+        candidates.push(exec);
+    }
+    for spec in candidates {
+        // several launches per probe: repeat the differing plan so that one probe samples more
+        let mut wide = spec.clone();
+        for _ in 0..4 {
+            wide.plans.push(spec.plans[1].clone());
+        }
+        let attempts = 12;
+        let mut hits = 0;
+        let mut last: Option<Probe> = None;
+        for _ in 0..attempts {
+            prober.fresh_process();
+            if let Some(p) = prober.probe(&wide) {
+                if p.signature().is_some() {
+                    hits += 1;
+                    last = Some(p);
+                }
+            }
+        }
+        if let Some(p) = last {
+            return Some((wide, p, hits, attempts));
+        }
+    }
+    None
+}
+
 pub fn minimise(args: &Args, full: &Spec, differing: usize) -> Minimised {
     let mut prober = Prober::new(args);
     let Some((mut spec, first, route)) = reproduce(&mut prober, full, differing) else {
+        if let Some((spec, p, hits, attempts)) = statistical(&mut prober, full, differing) {
+            let (class, kinds) = p.signature().unwrap_or_else(|| ("content".to_owned(), vec![]));
+            return Minimised {
+                spec,
+                differing: p.differing.unwrap_or(1),
+                obs: p.obs,
+                class,
+                kinds,
+                probes: prober.probes,
+                reproduced: true,
+                route: format!("statistical ({hits} of {attempts} fresh processes differed)"),
+            };
+        }
         let mut pair = full.clone();
         pair.plans = vec![full.plans[0].clone(), full.plans[differing.min(full.plans.len() - 1)].clone()];
         return Minimised {
